@@ -9,3 +9,6 @@ import CC.Thm.C15
 #print axioms CC.Thm.C15.stream32_eq_iff
 #print axioms CC.Thm.C15.stream64_eq_refill
 #print axioms CC.Thm.C15.source_code_match
+#print axioms CC.Thm.C15.state_eq_is_equality
+#print axioms CC.Thm.C15.rows_eq_is_equality
+#print axioms CC.Thm.C15.source_eq_match
